@@ -8,6 +8,8 @@
 //!     dependency modes, and encoded again from a clone of the graph;
 //!   * compositions whose implicit imports merge across semver-compatible names and interfaces (aggregator order), and
 //!     conflicting ones (the diagnostic text is digested);
+//!   * two packages sharing a component-typed and an instance-typed import, the second needing several items more (the
+//!     order of the merged type's items);
 //!   * WAC documents: parse -> print, resolve -> encode, and the diagnostics of ill-formed documents.
 //! The parent runs the worker in N fresh processes (std's per-process hash randomisation) and compares the lines.
 //! Exit 0 = identical everywhere, 1 = a differing output is printed.   usage: c16_repro [processes] [compositions]
@@ -89,6 +91,24 @@ fn worker(n: usize) {
             println!("comp {c} define={define} {d1}");
             if d1 != d2 { println!("comp {c} define={define} SECOND-ENCODING-DIFFERS {d2}"); }
             if d1 != d3 { println!("comp {c} define={define} CLONE-DIFFERS {d3}"); }
+        }
+    }
+    // component-typed (and instance-typed) imports shared by two packages, the second needing several items the first
+    // does not mention: the merged type lists them in a fixed order
+    {
+        let dep = |exports: &[&str], imports: &[&str]| { let mut s = String::from("(component\n  (import \"dep\" (component"); for i in imports { s.push_str(&format!(" (import \"{i}\" (func))")); } for e in exports { s.push_str(&format!(" (export \"{e}\" (func))")); } s.push_str("))\n  (import \"inst\" (instance"); for e in exports { s.push_str(&format!(" (export \"{e}\" (func))")); } s.push_str("))\n)"); wat::parse_str(&s).unwrap() };
+        let small = dep(&["a"], &["i"]);
+        let big = dep(&["a", "b", "c", "d", "e", "f"], &["i", "j", "k", "l", "m"]);
+        for order in [[0usize, 1], [1, 0]] {
+            let mut g = CompositionGraph::new();
+            let ps = [Package::from_bytes("t:small", None, small.clone(), g.types_mut()).unwrap(), Package::from_bytes("t:big", None, big.clone(), g.types_mut()).unwrap()];
+            let ids: Vec<_> = ps.into_iter().map(|p| g.register_package(p).unwrap()).collect();
+            for k in order { g.instantiate(ids[k]); }
+            // (dependencies embedded only: writing the component TYPE of a package that imports a component panics - the
+            // recorded C08 finding)
+            for define in [true] {
+                match g.encode(EncodeOptions { define_components: define, validate: false, processor: None }) { Ok(b) => println!("merged-component-import order={order:?} define={define} ok {:016x} {}", fnv(&b), b.len()), Err(e) => println!("merged-component-import order={order:?} define={define} err {:016x}", fnv(format!("{e:#}").as_bytes())) }
+            }
         }
     }
     let docs = [
